@@ -103,7 +103,7 @@ PROPS = {
                 "invalid for exactly one clause of the layout (single fault); distinct by value. Window stratum is sampled 1/64 into the distinct set; the "
                 "set saturates at 2M values per worker (distinct_saturated) so the count is a lower bound.",
         "require": {"evaluations": {"quick": 500000000, "thorough": 4000000000}, "ref_valid": 1000000, "single_fault_invalid": 1000000,
-                    "closure.cells": 100, "outcells.gridDisk": 100, "outcells.polygonToCellsExperimental": 100},
+                    "closure.cells": 100, "outcells.gridDisk": 100, "outcells.polygonToCellsExperimental": 100, "closure.families_eight_levels_deep": 2},
         "exhaustive_note": "exhaustive in the top 19 bits and in every 5-digit window; not exhaustive over 2^64",
         "assumptions": ["reference predicate equals the documented layout", "faults needing >=4 specific non-adjacent digit positions under one base cell are not excluded"],
     },
@@ -140,7 +140,7 @@ PROPS = {
                 "(whole resolutions), gridDisk(6) around the 12 pentagons and gridDisk(2) around icosahedron-edge/face-centre/pole/antimeridian seeds at "
                 "res 0-15, and stratified random cells. Non-trivial = every valid cell; distinct by cell index (whole-resolution sweeps beyond the perturbation "
                 "depth are sampled 1/1024 into the distinct set).",
-        "require": {"roundtrips": {"quick": 2000000, "thorough": 100000000}, "whole_resolutions": {"quick": 6, "thorough": 8}, "special.cells": 10000, "counts.res_checked": 16, "sparse.cells": 300000},
+        "require": {"roundtrips": {"quick": 2000000, "thorough": 100000000}, "whole_resolutions": {"quick": 6, "thorough": 8}, "special.cells": 10000, "counts.res_checked": 16, "sparse.cells": 300000, "footprint_tip.cells": 30000},
         "exhaustive": True,
         "exhaustive_note": "exhaustive for resolutions 0-5 (quick) / 0-7 (thorough); sampled beyond",
         "assumptions": ["reference enumerator equals the documented layout", "resolutions finer than the exhaustive ones are covered near pentagons/face edges/poles/antimeridian and by sampling only"],
@@ -227,7 +227,7 @@ PROPS = {
         "evaluations": ["cells"],
         "rule": "a case is one cell: boundary/centre/area checks plus segment matching against its geometric neighbours. Non-trivial = cell whose boundary has distortion vertices "
                 "(7, 8 or 10 vertices) or a pentagon; distinct by cell index. 'segments' counts boundary segments matched.",
-        "require": {"cells": {"quick": 2000000, "thorough": 100000000}, "segments.matched_once": 10000000, "special.cells": 5000, "numverts.10": 12, "numverts.07": 100, "numverts.08": 10},
+        "require": {"cells": {"quick": 2000000, "thorough": 100000000}, "segments.matched_once": 10000000, "special.cells": 5000, "numverts.10": 12, "numverts.07": 100, "numverts.08": 10, "footprint_tip.cells": 5000},
         "exhaustive": True,
         "exhaustive_note": "tiling exhaustive for res 0-5 (quick) / 0-6 (thorough); area sums for res 0-5 / 0-7",
         "assumptions": ["tolerances 1e-12 rad (shared vertices) from the property; 1e-8 relative (area) and 1e-9 (sum) measured with >100x headroom"],
@@ -373,7 +373,7 @@ PROPS = {
         "technique": "runtime monitoring: topological reference (components, Euler characteristic, outline size), orientation/area monitors and allocator ledger, under ASan/UBSan",
         "evaluations": ["sets", "memory_only.sets"],
         "rule": "a case is one set of distinct same-resolution cells. Non-trivial = more than one cell; distinct by hash of the sorted set.",
-        "require": {"sets": 20000, "corpus.origins": 6000, "sets.with_holes": 50, "sets.multi_component": 50, "cells_in": 200000, "memory_only.error_returns": 100, "sets.globe_minus_patches": 100},
+        "require": {"sets": 20000, "corpus.origins": 6000, "sets.with_holes": 50, "sets.multi_component": 50, "cells_in": 200000, "memory_only.error_returns": 100, "sets.globe_minus_patches": 100, "sets.targets_nine_or_more_rings": 30},
         "assumptions": ["three cells meet at every corner, so outline loops are simple and 2-(V-E+F) counts them"],
     },
     "C17": {
@@ -449,7 +449,7 @@ PROPS = {
                 "<=20 bytes. A case is counted as non-trivial when it is judged (tostr: always; parse: canonical-hex or non-hex-start shape) "
                 "and distinct by hash of (value,size) resp. of the bytes.",
         "require": {"tostr.small": 100, "tostr.fit": 1000, "roundtrip": 1000, "parse.nonhex": 1000, "parse.canonical": 100,
-                    "roundtrip.16digit_or_highbit": 10},
+                    "roundtrip.16digit_or_highbit": 10, "tostr.unaligned_destinations": 100000},
         "assumptions": ["glibc sscanf/sprintf behave per C standard", "ASan red zones / canaries detect writes next to the exact-size buffer",
                         "shapes the statement does not cover (sign, whitespace, 0x, padding, upper case, >16 digits, trailing junk) are observed, not judged"],
     },
